@@ -198,6 +198,24 @@ def c05_cells():
     for aname, stmt, conforms in ARITY:
         for ctx in CONTEXTS:
             out.append((f'arity:{aname}@{ctx}', f'arity:{"ok" if conforms else "bad"}:{ctx}', wrap([stmt], ctx), conforms, {'use': 'arity', 'ctx': ctx, 'rule': 'arity', 'stmt': stmt}))
+    # tuple and list typed positions: every component must conform
+    GEN_USES = [('call-tuple2', '(Int, Int)', 'print(ft2(@H@))'), ('local-tuple2', '(Int, Int)', 'def gl: (Int, Int) := @H@'), ('call-tuple3', '(Int, Str, Int)', 'print(ft3(@H@))'),
+                ('method-tuple2', '(Int, Int)', 'print(GH().mt2(@H@))'), ('call-list', 'List[Int]', 'print(flist(@H@))'), ('local-list', 'List[Int]', 'def gl: List[Int] := @H@'),
+                ('call-float-tuple', '(Float, Float)', 'print(ftf(@H@))')]
+    GEN_FILL = {
+        '(Int, Int)': [('ok', '(1, 2)', True), ('bad-first', '("a", 2)', False), ('bad-last', '(1, "b")', False), ('bad-both', '("a", "b")', False), ('too-long', '(1, 2, 3)', False),
+                       ('too-short-int', '1', False), ('float-first', '(1.5, 2)', False), ('float-last', '(1, 2.5)', False)],
+        '(Int, Str, Int)': [('ok', '(1, "s", 2)', True), ('bad-first', '("a", "s", 2)', False), ('bad-middle', '(1, 5, 2)', False), ('bad-last', '(1, "s", "z")', False), ('too-short', '(1, "s")', False)],
+        'List[Int]': [('ok', '[1, 2]', True), ('bad-elem', '["a"]', False), ('bad-last-elem', '[1, "a"]', False), ('bad-first-elem', '["a", 1]', False), ('not-a-list', '3', False)],
+        '(Float, Float)': [('ok', '(1.5, 2.5)', True), ('int-components', '(1, 2)', True), ('int-first', '(1, 2.5)', True), ('bad-last', '(1.5, "s")', False), ('bad-first', '("s", 1.5)', False)],
+    }
+    GEN_TOP = ['def ft2(a: (Int, Int)) -> Int => 1', 'def ft3(a: (Int, Str, Int)) -> Int => 1', 'def flist(a: List[Int]) -> Int => 1', 'def ftf(a: (Float, Float)) -> Int => 1',
+               'class GH', '    def mt2(self, a: (Int, Int)) -> Int => 1']
+    for uname, ety, stmt in GEN_USES:
+        for fname, expr, conforms in GEN_FILL[ety]:
+            for ctx in CONTEXTS:
+                out.append((f'{uname}<-{fname}@{ctx}', f'generic:{uname}:{fname}:{ctx}', wrap([stmt.replace('@H@', expr)], ctx, GEN_TOP), conforms,
+                            {'use': uname, 'expected_type': ety, 'filler': fname, 'ctx': ctx, 'rule': 'argument'}))
     # returns: the function is the context
     RET_CTX = {
         'tail': ['@R@'],
@@ -250,7 +268,7 @@ C06_T = {
 
 def c06_prelude(T):
     v, v2, _, _ = C06_T[T]
-    base = ('class Base(def bx: Int)\n    def get(self) -> Int => self.bx\n\n' if T == 'Base' else '')
+    base = ('class Base(def bx: Int)\n    def get(self) -> Int => self.bx\n\nclass Child(bx: Int, def cy: Int): Base(bx)\n\n' if T == 'Base' else '')
     return base + f'''class FBox(def f: {T})
     def setf(self, a: {T}) -> Int => 1
 
@@ -284,6 +302,14 @@ def c06_cells():
             ('plain', [], v2, T),
             ('plain-var', [f'def pv: {T} := {v2}'], 'pv', T),
         ]
+        SUB = {'Float': ('Int', '3'), 'Base': ('Child', 'Child(3, 4)')}
+        if T in SUB:
+            st, sv = SUB[T]
+            sources += [
+                ('sub-nvar-set', [f'def ns: {st}? := {sv}'], 'ns', st + '?'),
+                ('sub-plain', [], sv, st),
+                ('sub-qdefault', [f'def ns: {st}? := {sv}'], f'(ns ? {sv})', st),
+            ]
         uses = [
             ('local', [], f'def u: {T} := @H@', T), ('local-nullable', [], f'def u: {T}? := @H@', T + '?'),
             ('reassign', [f'def u: {T} := {v}'], 'u := @H@', T), ('reassign-nullable', [f'def u: {T}? := {v}'], 'u := @H@', T + '?'),
@@ -299,8 +325,8 @@ def c06_cells():
             uses.append(('receiver-field', [], 'print(@H@.bx)', T))
         for uname, usetup, stmt, ety in uses:
             for sname, ssetup, expr, sty in sources:
-                if uname in ('operand', 'receiver', 'receiver-field') and sname == 'none':
-                    pass
+                if uname in ('operand', 'receiver', 'receiver-field') and sname in ('sub-plain', 'sub-qdefault'):
+                    continue    # whether `3 * 2.0` is defined is not a nullability question
                 must = is_sub(sty, ety)
                 direction = ('null-into-nonnull' if not must else ('into-nullable' if ety.endswith('?') else 'nonnull-into-nonnull'))
                 for ctx in CONTEXTS:
@@ -319,6 +345,19 @@ def c06_cells():
                     src = pre + '\n' + '\n'.join(top) + f'\n\ndef rr: {rty} := retf(1)\nprint("done")\n'
                     out.append((f'{T}:return{"-nullable" if rty.endswith("?") else ""}<-{sname}@{form}', f"return{'-nullable' if rty.endswith('?') else ''}:{sname}:{form}",
                                 src, must, {'T': T, 'use': 'return', 'source': sname, 'ctx': 'fun/' + form}))
+        # calls through a function-typed parameter: `def cuse(h: (P) -> Int, y: S) -> Int => h(y)`
+        stys = sorted({sty for _, _, _, sty in sources if sty != 'None'})
+        for pty in (T, T + '?'):
+            for sty in stys:
+                for form, body in (('direct', 'h(y)'), ('in-if', 'if 1 < 2 then h(y) else 0'), ('second-arg', 'h2(1, y)')):
+                    if form == 'second-arg':
+                        src = pre + f'\ndef cuse(h2: (Int, {pty}) -> Int, y: {sty}) -> Int => h2(1, y)\n\nprint("end")\n'
+                    elif form == 'in-if':
+                        src = pre + f'\ndef cuse(h: ({pty}) -> Int, y: {sty}) -> Int =>\n    if 1 < 2 then\n        return h(y)\n    0\n\nprint("end")\n'
+                    else:
+                        src = pre + f'\ndef cuse(h: ({pty}) -> Int, y: {sty}) -> Int => h(y)\n\nprint("end")\n'
+                    out.append((f'{T}:callable-arg({pty})<-{sty}@{form}', f"callable-arg{'-nullable' if pty.endswith('?') else ''}:{'exact' if sty == pty else ('null-into-nonnull' if not is_sub(sty, pty) else 'conforming')}:{form}",
+                                src, is_sub(sty, pty), {'T': T, 'use': 'callable-arg', 'source': sty, 'ctx': 'fun/' + form}))
         # nullable parameter used inside the function
         for uname, stmt, ety in (('local', f'def u: {T} := p', T), ('local-nullable', f'def u: {T}? := p', T + '?'), ('arg', 'print(take(p))', T), ('arg-nullable', 'print(taken(p))', T + '?'),
                                  ('qdefault', f'def u: {T} := p ? {v2}', T + '?')):
@@ -442,6 +481,48 @@ def c07_cells():
             stmts = defs + [l.replace('@A@', 'x := 9') for l in NESTINGS[nest]]
             for ctx in CTX:
                 add(f'shadow-{name}:{nest}@{ctx}', f'shadow:{name}:{nest}:{ctx}', stmts, ctx, must, {'form': 'shadow', 'shadow': name, 'nest': nest})
+    # a shadowing definition inside a nested block ends with that block: the assignment after it sees the outer one
+    INNER = {
+        'then-no-else': ['if 1 < 2 then', '    @D@', '    print("i")'],
+        'then-with-else': ['if 1 < 2 then', '    @D@', '    print("i")', 'else', '    print("e")'],
+        'else': ['if 1 > 2 then', '    print("t")', 'else', '    @D@', '    print("i")'],
+        'both-branches': ['if 1 < 2 then', '    @D@', '    print("i")', 'else', '    @D@', '    print("j")'],
+        'for-body': ['for zi in 0 .. 2 do', '    @D@', '    print("i")'],
+        'while-body': ['def zw := 0', 'while zw < 1 do', '    @D@', '    zw := zw + 1'],
+        'match-arm': ['match 1', '    1 =>', '        @D@', '        print("i")', '    _ =>', '        print("n")'],
+        'handle-arm': ['boomf() handle', '    zerr: Boom =>', '        @D@', '        print("i")'],
+        'nested-2': ['for zi in 0 .. 2 do', '    if zi < 5 then', '        @D@', '        print("i")'],
+    }
+    for iname, lines in INNER.items():
+        for outer, inner, must in (('def fin x := 1', 'def x := 5', False), ('def x := 1', 'def fin x := 5', True), (None, 'def x := 5', False), (None, 'def fin x := 5', False)):
+            for op, val in ASSIGN_OPS[:2]:
+                stmts = ([outer] if outer else []) + [l.replace('@D@', inner) for l in lines] + [f'x {op} {val}']
+                oname = 'outer-fin-inner-mut' if outer == 'def fin x := 1' else ('outer-mut-inner-fin' if outer else ('inner-only-mut' if 'fin' not in inner else 'inner-only-fin'))
+                for ctx in ['top', 'fun', 'method', 'loop']:
+                    add(f'scope-{oname}:{iname}:{op}@{ctx}', f'scope:{oname}:{iname}:{op}:{ctx}', stmts, ctx, must, {'form': 'scope', 'inner': iname, 'outer': oname, 'op': op})
+    # parameters of a body-less declaration, of another function, of a lambda: not assignable afterwards
+    DECLS = {
+        'bodyless-function': ['def area(x: Int, wid: Int) -> Int'],
+        'function-with-body': ['def area(x: Int, wid: Int) -> Int => wid'],
+        'lambda': ['def lam := \\x: Int => x + 1'],
+        'for-variable': ['for x in 0 .. 2 do', '    print("b")'],
+        'match-binder': ['match 1', '    x =>', '        print("b")'],
+        'comprehension': ['def zl := [x | x in 0 .. 3]'],
+    }
+    for dname, dl in DECLS.items():
+        for outer, must in (('def fin x := 1', False), (None, False), ('def x := 1', True)):
+            stmts = ([outer] if outer else []) + dl + ['x := 9']
+            oname = 'outer-fin' if outer == 'def fin x := 1' else ('outer-mut' if outer else 'no-outer')
+            for ctx in ['top', 'fun']:
+                if dname in ('bodyless-function', 'function-with-body') and ctx != 'top':
+                    continue
+                add(f'leak-{dname}:{oname}@{ctx}', f'leak:{dname}:{oname}:{ctx}', stmts, ctx, must, {'form': 'leak', 'decl': dname, 'outer': oname})
+    # class variant: parameter of an abstract method is not a local of the next method
+    for outer in ('abstract-then-method',):
+        src = P + '\ntype Sh\n    def g(self, x: Int) -> Int\n\nclass Sq: Sh\n    def g(self, x: Int) -> Int => x\n    def h(self) -> Int =>\n        x := 3\n        0\n\nprint("end")\n'
+        out.append(('leak-abstract-method-param', 'leak:abstract-method-param', src, False, {'form': 'leak', 'ctx': 'method'}))
+        src = P + '\nclass Sq2\n    def g(self, x: Int) -> Int\n    def h(self) -> Int =>\n        x := 3\n        0\n\nprint("end")\n'
+        out.append(('leak-bodyless-method-param', 'leak:bodyless-method-param', src, False, {'form': 'leak', 'ctx': 'method'}))
     return [c for c in out if c[3] is not None]
 
 
@@ -662,6 +743,13 @@ def c09_cells():
         ('assign-in-one-branch-then-read', ['if a > 0 then', '    self.x := a', 'self.y := self.x'], False),
         ('assign-in-both-branches-then-read', ['if a > 0 then', '    self.x := a', 'else', '    self.x := 0', 'self.y := self.x'], True),
         ('assign-in-match-arm-then-read', ['match a', '    1 =>', '        self.x := a', '    _ =>', '        print("n")', 'self.y := self.x'], False),
+        ('aug-before-assign', ['self.x += a', 'self.x := a', 'self.y := a'], False),
+        ('aug-sub-before-assign', ['self.y := a', 'self.x -= 1', 'self.x := a'], False),
+        ('aug-after-assign', ['self.x := a', 'self.x += a', 'self.y := a'], True),
+        ('aug-in-branch-before-assign', ['if a > 0 then', '    self.x *= 2', 'self.x := a', 'self.y := a'], False),
+        ('read-in-argument-before-assign', ['self.y := fi(self.x)', 'self.x := a'], False),
+        ('read-in-condition-before-assign', ['if self.x > 0 then', '    print("p")', 'self.x := a', 'self.y := a'], False),
+        ('read-other-field-after-its-assign', ['self.y := a', 'self.x := self.y + 1'], True),
         ('missing-field-assignment', ['self.x := a'], False),
         ('all-assigned', ['self.x := a', 'self.y := a'], True),
     ]
